@@ -170,6 +170,15 @@ static void op_val(int mode, const struct ty *src, const struct ty *tgt)
 	const char *vd = rd < 0 ? "refused" : (dst_spilled(tgt) ? "OOB" : "ok");
 	if (rd >= 0) out_text(tgt, out, sizeof(out)); else strcpy(out, "-");
 	int rq = do_conv(mode, src, tgt, 0);
+	if (mode == 0) {
+		/* the converter's return value is the documented destination size: observable */
+		char r1[16], r2[16];
+		if (rd < 0) strcpy(r1, "-"); else snprintf(r1, sizeof(r1), "%d", rd);
+		if (rq < 0) strcpy(r2, "-"); else snprintf(r2, sizeof(r2), "%d", rq);
+		printf("R dst=%s out=%s ret=%s nodst=%s qret=%s | C - | I ret=%s qret=%s\n", vd, out, r1, rq < 0 ? "refused" : "ok", r2,
+		       retname(rd, b1, sizeof(b1)), retname(rq, b2, sizeof(b2)));
+		return;
+	}
 	printf("R dst=%s out=%s nodst=%s | C - | I ret=%s qret=%s\n", vd, out, rq < 0 ? "refused" : "ok",
 	       retname(rd, b1, sizeof(b1)), retname(rq, b2, sizeof(b2)));
 }
@@ -209,7 +218,7 @@ static void op_sweep(const struct ty *src, const struct ty *tgt, wide lo, wide h
 		dst_prepare();
 		int rd = do_conv(0, src, tgt, dstbuf);
 		const char *vd = rd < 0 ? "refused" : (dst_spilled(tgt) ? "OOB" : "ok");
-		int bad = rd >= 0 && (dst_spilled(tgt) || !exact_int(src, tgt, v));
+		int bad = rd >= 0 && (dst_spilled(tgt) || !exact_int(src, tgt, v) || rd != tgt->size);
 		if (bad) {
 			if (nwrong < 8) {
 				out_text(tgt, out, sizeof(out));
@@ -310,7 +319,7 @@ int main(void)
 			uint8_t *dat; size_t len; int isnull;
 			const char *fn = drv_w[2];
 			int isf = op[0] == 'f';
-			if (!tgt || tgt->flt != isf || tgt->code == 'c'
+			if (!tgt || tgt->flt != isf || (tgt->code == 'c' && strcmp(fn, "number") && strcmp(fn, "string"))
 			    || (strcmp(fn, "number") && strcmp(fn, "string") && strcmp(fn, isf ? "cflt" : "cint"))
 			    || drv_parse_data(drv_w[4], &dat, &len, &isnull)) { puts("bad-op"); continue; }
 			if (isnull) { free(dat); puts("bad-op"); continue; }
